@@ -99,6 +99,7 @@ Inductive eh_action := Write (c : code_expr) | NoWrite.
 Inductive eh_branch :=
 | BrIs (k : err_kind) (a : eh_action)       (* if e, ok := Unwrap[T](err); ok { a; return } *)
 | BrPrefix (p : string) (a : eh_action)     (* if strings.HasPrefix(err.Error(), p) { a; return } *)
+| BrContains (p : string) (a : eh_action)   (* if strings.Contains(err.Error(), p) { a; return } *)
 | BrDefault (a : eh_action)                 (* unconditional write at the end *)
 | BrUnknown.                                (* a statement the translator does not understand *)
 
@@ -122,12 +123,17 @@ Definition act (a : eh_action) (e : error) : option Z :=
   | Write UnknownCode => None
   end.
 
+(* strings.Contains *)
+Fixpoint contains (p s : string) : bool :=
+  prefix p s || match s with EmptyString => false | String _ r => contains p r end.
+
 (* the status written for an error; None = nothing is written (net/http then answers 200 with an empty body) *)
 Fixpoint eh_eval (bs : list eh_branch) (e : error) : option Z :=
   match bs with
   | [] => None
   | BrIs k a :: r => if unwrap_matches k (e_kind e) then act a e else eh_eval r e
   | BrPrefix p a :: r => if prefix p (e_msg e) then act a e else eh_eval r e
+  | BrContains p a :: r => if contains p (e_msg e) then act a e else eh_eval r e
   | BrDefault a :: _ => act a e
   | BrUnknown :: _ => None
   end.
@@ -160,6 +166,7 @@ Definition eh_branch_eqb (a b : eh_branch) : bool :=
   match a, b with
   | BrIs k x, BrIs k' y => err_kind_eqb k k' && eh_action_eqb x y
   | BrPrefix p x, BrPrefix q y => String.eqb p q && eh_action_eqb x y
+  | BrContains p x, BrContains q y => String.eqb p q && eh_action_eqb x y
   | BrDefault x, BrDefault y => eh_action_eqb x y
   | BrUnknown, BrUnknown => true
   | _, _ => false
@@ -179,6 +186,45 @@ Definition e_unmarshal (m : string) : error := {| e_kind := KUnmarshal; e_code :
 Definition e_plain (m : string) : error := {| e_kind := KPlain; e_code := 0; e_msg := m |}.
 (* tamePanic: fmt.Errorf("panic: %v", err) *)
 Definition e_panic : error := e_plain "panic: recovered in the parser goroutine".
+
+(* Untyped errors whose TEXT embeds client-controlled strings (fmt.Errorf("<head>%w|%s", ...)): the text is the
+   literal head chosen by the repository followed by something the client influences.
+     strconv.ParseUint's error is `strconv.ParseUint: parsing <strconv.Quote(s)>: invalid syntax`; Quote is modelled
+     as plain double quotes (exact for printable ASCII without quote/backslash, which is what the generator sends). *)
+Definition quoted (s : string) : string := """" ++ s ++ """".
+Definition e_from (from : string) : error :=
+  e_plain ("failed to parse start time: strconv.ParseUint: parsing " ++ quoted from ++ ": invalid syntax").
+Definition e_until (until : string) : error :=
+  e_plain ("failed to parse end time: strconv.ParseUint: parsing " ++ quoted until ++ ": invalid syntax").
+(* parseLabelsLokiFormat: fmt.Errorf("unknown input: %s", labels[s.Offset:]) *)
+Definition e_labels (rest : string) : error := e_plain ("unknown input: " ++ rest).
+
+(* two texts part ways at a position both have: then neither `p` is a prefix of `h ++ anything` ... *)
+Fixpoint diverge (p h : string) : bool :=
+  match p, h with
+  | String a p', String b h' => if Ascii.eqb a b then diverge p' h' else true
+  | _, _ => false
+  end.
+(* an untyped-error construction site (generated list) cannot produce a text that begins with phrase p *)
+Definition site_head (s : string * string * string * string * string) : string := let '(_, _, _, h, _) := s in h.
+Definition site_cannot_start_with (p : string) (s : string * string * string * string * string) : bool :=
+  diverge p (site_head s).
+(* the literals that ErrorHandler prefix-matches error texts with *)
+Fixpoint prefix_literals (bs : list eh_branch) : list string :=
+  match bs with
+  | [] => []
+  | BrPrefix p _ :: r => p :: prefix_literals r
+  | _ :: r => prefix_literals r
+  end.
+Fixpoint contains_literals (bs : list eh_branch) : list string :=
+  match bs with
+  | [] => []
+  | BrContains p _ :: r => p :: contains_literals r
+  | _ :: r => contains_literals r
+  end.
+Definition sites_safe (bs : list eh_branch) (sites : list (string * string * string * string * string)) : bool :=
+  forallb (fun p => forallb (site_cannot_start_with p) sites) (prefix_literals bs)
+  && match contains_literals bs with [] => true | _ => false end.
 
 (* ------------------------------------------------------------------------------------------ *)
 (** * 3. Hand-written loops *)
@@ -506,21 +552,21 @@ Definition ingest_select (ct : string) : option ingest_parser :=
   else if prefix "binary/octet-stream" ct then Some IPBinary
   else None.
 
-Definition e_param : error := e_plain "failed to parse time / compile labels".
+Definition e_param : error := e_plain "failed to compile labels".
 
 (* pProfProtoDec.Decode / binaryStreamPProfProtoDec.Decode up to the body, as events for parse_prof;
    Hang = the ns loop does not return *)
 Inductive decode_res := DEvents (evs : list prof_event) | DHang.
 Definition ingest_decode (p : ingest_parser) (from until name : string) (wire_ok : bool) : decode_res :=
   match parse_uint64 from with
-  | None => DEvents [PvErr e_param]
+  | None => DEvents [PvErr (e_from from)]
   | Some start =>
       let endo := match parse_uint64 until with
                   | Some e => Some e
                   | None => match p with IPMultipart => Some 0%N (* error dropped: end stays 0 *) | IPBinary => None end
                   end in
       match endo with
-      | None => DEvents [PvErr e_param]
+      | None => DEvents [PvErr (e_until until)]
       | Some en =>
           match name_labels name with
           | NamePanic => DEvents [PvPanic]
@@ -616,8 +662,13 @@ Definition proto_logs_outcome (accepted : bool) : cls :=
   if accepted then cls_of_parse (fst (do_parse ctx_logs world0 false (parse_logs logs_st0
                       [LvEntries {| ei_rows := 2; ei_series := 1; ei_bytes := 100 |}])))
   else cls_of_parse (PStatus (e_plain "proto: cannot parse invalid wire-format data")).
-Definition snappy_outcome (s : snappy_d) (inner_ok fallback_parses : bool) : cls :=
-  proto_logs_outcome (if unsnappy_decodes s then inner_ok else fallback_parses).
+(* lbl_tail: Loki protobuf push only. The stream's label string is `{job="a" <lbl_tail>}`; a non-empty tail (not
+   starting with a comma) makes parseLabelsLokiFormat fail with the untyped `unknown input: <lbl_tail>}` *)
+Definition snappy_outcome (s : snappy_d) (inner_ok fallback_parses : bool) (lbl_tail : string) : cls :=
+  if (if unsnappy_decodes s then inner_ok else fallback_parses)
+  then (if String.eqb lbl_tail "" then proto_logs_outcome true
+        else cls_of_parse (PStatus (e_labels (lbl_tail ++ "}"))))
+  else proto_logs_outcome false.
 
 (* ---- influx ---- *)
 Definition precision_ok (p : string) : bool :=
@@ -628,7 +679,7 @@ Inductive body_d :=
 | BIngest (from until name : string)
 | BZipkin (nd : bool) (spans : list zspan)
 | BOtlp (rs : list ores)
-| BSnappy (s : snappy_d) (fallback_parses : bool)
+| BSnappy (s : snappy_d) (fallback_parses : bool) (lbl_tail : string)
 | BInflux (precision : string)
 | BLokiJson (bad_ts : bool)
 | BBytes.      (* byte-level fuzz case: nothing is predicted *)
@@ -647,7 +698,7 @@ Definition route_outcome (q : request) : expect :=
   | BZipkin nd spans => if q_wire_ok q then Exact (zipkin_outcome nd spans) else AnyError
   | BOtlp rs => if q_wire_ok q then Exact (otlp_outcome rs)
                 else Exact (cls_of_parse (PStatus (e_plain "proto: cannot parse invalid wire-format data")))
-  | BSnappy s fb => Exact (snappy_outcome s (q_wire_ok q) fb)
+  | BSnappy s fb tail => Exact (snappy_outcome s (q_wire_ok q) fb tail)
   | BInflux p => if precision_ok p then (if q_wire_ok q then Exact (proto_logs_outcome true) else AnyError)
                  else Exact C4xx
   | BLokiJson bad_ts => if bad_ts then Exact (cls_of_parse (PStatus e_json))
@@ -693,7 +744,7 @@ Definition body_malformed (q : request) : bool :=
   | BIngest from until name => ingest_malformed (q_ct q) from until name (q_wire_ok q)
   | BZipkin _ spans => negb (q_wire_ok q) || existsb zspan_malformed spans
   | BOtlp rs => negb (q_wire_ok q) || existsb (fun r => existsb (ospan_malformed (r_has_resource r)) (r_spans r)) rs
-  | BSnappy s fb => negb (if unsnappy_decodes s then q_wire_ok q else fb)
+  | BSnappy s fb tail => negb (if unsnappy_decodes s then q_wire_ok q else fb) || negb (String.eqb tail "")
   | BInflux p => negb (precision_ok p) || negb (q_wire_ok q)
   | BLokiJson bad_ts => bad_ts || negb (q_wire_ok q)
   end.
@@ -737,7 +788,7 @@ Definition alloc_bound_kb (body_kb : Z) : Z := (65536 + 64 * body_kb)%Z.
    accepted must not be accepted (unless its compressed bytes happen to be a message themselves) *)
 Definition snappy_limit_respected (q : request) (o : outcome) : bool :=
   match q_body q, o with
-  | BSnappy SnTooLong false, O2xx => false
+  | BSnappy SnTooLong false _, O2xx => false
   | _, _ => true
   end.
 
